@@ -16,7 +16,7 @@
   clause and the assembly are proved in Proofs/EpTarget*.lean.  The hypothesis on the move is
   "generated" (pseudo-legal); "playable"/legal is the special case the property speaks about.
 -/
-import ChessVerif.Proofs.EpTargetRun
+import ChessVerif.Proofs.EpTargetExamplesRun
 import ChessVerif.Props.C02core
 
 namespace ChessVerif.Props.C02
@@ -57,6 +57,17 @@ theorem make_refines_rules (K : Keys) {b : Board} {m : Move} (hv : Board.valid b
     (hm : m ∈ MoveGen.playable K b) : abs (b.makeMove K m).1 = Rules.apply (abs b) (decodeMove m) :=
   make_refines_rules_gen K hv (EpTarget.playable_gen hm)
 
+/-- **C02 in the rule book's own terms**: for every valid position and every legal move `mv` of the
+    rule book, playing the engine's encoding of `mv` yields exactly the position the rules prescribe.
+    (Pseudo-legality suffices; no reference to the engine's generator or legality filter.) -/
+theorem make_refines_rules_legal (K : Keys) {b : Board} (hv : Board.valid b = true) (mv : Rules.Mv)
+    (hl : Rules.legal (abs b) mv = true) :
+    abs (b.makeMove K (encodeMove mv)).1 = Rules.apply (abs b) mv := by
+  have hpl : Rules.pseudoLegal (abs b) mv = true := by
+    unfold Rules.legal at hl; rw [Bool.and_eq_true] at hl; exact hl.1
+  obtain ⟨hg, hd⟩ := Bridge.encode_mem_gen hv mv hpl
+  rw [make_refines_rules_gen K hv hg, hd]
+
 /-- the position after `MakeMove` is in the engine's normal form: a recorded en-passant target has a
     legal capture. -/
 theorem epNormal_make (K : Keys) {b : Board} {m : Move} (hv : Board.valid b = true)
@@ -83,5 +94,123 @@ theorem run_refines_rules_of_valid_make (K : Keys)
     (b : Board) (ms : List Move) (hv : Board.valid b = true) (h : EpTarget.PlayableSeq K b ms) :
     abs (run K b ms) = runRules (abs b) ms :=
   run_refines_rules K b ms (EpTarget.playableRun_of_seq K hvm ms b hv h)
+
+/-! ### through the UCI `position` command -/
+
+/-- every generated move survives printing and parsing: `parseUCIMove (toUCI m) = m`. -/
+theorem parse_toUCI {b : Board} {m : Move} (hv : Board.valid b = true) (hm : m ∈ MoveGen.gen b) :
+    UciPosition.parseUCIMove b (Move.toUCI m).toUTF8.data = some m := EpTarget.parse_toUCI hv hm
+
+/-- `applyMoves` given the printed moves is `MakeMove` folded over the moves. -/
+theorem applyMoves_toUCI (K : Keys) (b : Board) (ms : List Move) (h : PlayableRun K b ms) :
+    UciPosition.applyMoves K b (ms.map fun m => (Move.toUCI m).toUTF8.data) = run K b ms :=
+  EpTarget.applyMoves_toUCI K ms b h
+
+/-- the board `position fen <printed FEN of b>` installs: `b` with a fresh one-element hash history. -/
+abbrev installed := EpTarget.installed
+
+/-- **C02 through the UCI position command.**  For a valid position `b` whose printed FEN parses
+    back to it (`Fen.RoundTripOK b` — the C11 round trip of that board, proved there for concrete
+    boards and in parts in general) and moves each playable in turn,
+    `position fen <FEN of b> moves m₁ … mₙ` leaves the driver with exactly the board obtained by playing
+    the moves with `MakeMove` on the installed position, whose abstraction is the position the rule
+    book prescribes (piece placement, side to move, rights, both counters, en-passant target recorded
+    iff a legal en-passant capture exists). -/
+theorem uci_moves_refine_partial (K : Keys) (cur b : Board) (ms : List Move) (hv : Board.valid b = true)
+    (hrt : Fen.RoundTripOK b) (hrun : PlayableRun K b ms) :
+    UciPosition.handlePositionS K cur ("fen" :: (Fen.printFields b ++ "moves" :: ms.map Move.toUCI)) =
+        run K (installed K b) ms ∧
+    abs (UciPosition.handlePositionS K cur ("fen" :: (Fen.printFields b ++ "moves" :: ms.map Move.toUCI))) =
+        runRules (abs b) ms :=
+  EpTarget.uci_moves_refine_of_core' K (fun _ _ hv hm => C02core.abs_make_core K hv hm) cur b ms hrt hrun hv
+
+/-- **C02, UCI half, full statement**: the same without the round-trip hypothesis (the move number
+    bounded by the range of the Go `int`, as in `Fen.C11_roundtrip_full`).  It follows from the full C11
+    round trip (`uci_full_of_roundtrip_full`); what is missing is exactly `Fen.C11_roundtrip_full`
+    (`parseFEN (printFEN b) = ok b` for every valid board), which C11 proves only in parts. -/
+def C02_uci_full : Prop :=
+  ∀ (K : Keys) (cur b : Board) (ms : List Move), Board.valid b = true → b.fullMoves < 2 ^ 63 →
+    PlayableRun K b ms →
+    UciPosition.handlePositionS K cur ("fen" :: (Fen.printFields b ++ "moves" :: ms.map Move.toUCI)) =
+        run K (installed K b) ms ∧
+    abs (UciPosition.handlePositionS K cur ("fen" :: (Fen.printFields b ++ "moves" :: ms.map Move.toUCI))) =
+        runRules (abs b) ms
+
+theorem uci_full_of_roundtrip_full (h : Fen.C11_roundtrip_full) : C02_uci_full :=
+  fun K cur b ms hv hfm hrun => uci_moves_refine_partial K cur b ms hv (h b hv hfm) hrun
+
+/-- the same from `position startpos moves m₁ … mₙ`. -/
+theorem uci_startpos_moves_refine (K : Keys) (cur : Board) (ms : List Move)
+    (hrun : PlayableRun K (UciPosition.startPos K) ms) :
+    UciPosition.handlePositionS K cur ("startpos" :: "moves" :: ms.map Move.toUCI) =
+        run K (UciPosition.startPos K) ms ∧
+    abs (UciPosition.handlePositionS K cur ("startpos" :: "moves" :: ms.map Move.toUCI)) =
+        runRules (abs (UciPosition.startPos K)) ms :=
+  EpTarget.uci_startpos_moves_of_core K (fun _ _ hv hm => C02core.abs_make_core K hv hm) cur ms hrun
+
+/-! ### Non-vacuity
+
+  Example boards (Proofs/EpTargetExamples.lean): `d2a` = `8/8/8/7k/5p2/8/4P3/3BK3 w`, `d2b` =
+  `8/8/8/8/3p4/8/R3P2k/4K3 w` (the two D2 positions), `pin` = `8/8/8/8/k2p3R/8/4P3/4K3 w`, `okp` =
+  `4k3/8/8/8/3p4/8/4P3/4K3 w`, `blk` = `4k3/3p4/8/4P3/8/8/8/4K3 b`; `e2e4 = Move.mk 12 28 0`,
+  `d7d5 = Move.mk 51 35 0`, `dxe3 = Move.mk 27 20 0`. -/
+
+open EpTarget.Examples
+
+-- the hypotheses of `canEnPassant_iff` / `make_ep_iff` hold of the D2 position and e2e4 …
+example : Board.valid d2a = true := d2a_valid
+example : e2e4 ∈ MoveGen.gen d2a := d2a_gen
+example : d2a.pieceAt (Move.src e2e4) = Piece.pawn ∧ mvDiff e2e4 = 16 := by decide +kernel
+-- … the black pawn f4 stands beside e4, yet the executable model records no target (D2 repaired):
+example : (abs d2a).at_ 29 = some (Color.black, Piece.pawn) := by decide +kernel
+example : d2a.canEnPassant 28 = false := by decide +kernel
+example : (d2a.makeMove zeroKeys e2e4).1.ep = 0 := by decide +kernel
+-- the rule book agrees (no legal en-passant capture: the king stays in the bishop's discovered check) …
+example : Rules.legalEpCaptures (Rules.applyCore (abs d2a) (decodeMove e2e4)) = [] := d2a_caps
+-- … and so, by the theorem, does `MakeMove` for every key table
+example (K : Keys) : (d2a.makeMove K e2e4).1.ep = 0 := by
+  rw [EpTarget.make_ep_eq K d2a_valid d2a_gen, d2a_caps]; rfl
+
+-- the second D2 position (discovered check along the rank) and the rank pin through both pawns:
+-- the rook tables are out of reach of kernel evaluation, the theorem gives the engine's answer
+example : d2b.canEnPassant 28 = false := by
+  cases h : d2b.canEnPassant 28
+  · rfl
+  · exact absurd d2b_caps ((canEnPassant_iff d2b_valid d2b_gen (by decide +kernel) (by decide +kernel)).1 h)
+example (K : Keys) : (d2b.makeMove K e2e4).1.ep = 0 := by
+  rw [EpTarget.make_ep_eq K d2b_valid d2b_gen, d2b_caps]; rfl
+example (K : Keys) : (pin.makeMove K e2e4).1.ep = 0 := by
+  rw [EpTarget.make_ep_eq K pin_valid pin_gen, pin_caps]; rfl
+
+-- a position where the target IS recorded (White and Black double push)
+example : okp.canEnPassant 28 = true :=
+  (canEnPassant_iff okp_valid okp_gen (by decide +kernel) (by decide +kernel)).2 (by rw [okp_caps]; simp)
+example (K : Keys) : (okp.makeMove K e2e4).1.ep = 20 := by
+  rw [EpTarget.make_ep_eq K okp_valid okp_gen, okp_caps]; decide
+example (K : Keys) : (blk.makeMove K d7d5).1.ep = 43 := by
+  rw [EpTarget.make_ep_eq K blk_valid blk_gen, blk_caps]; decide
+
+-- the whole successor position, and its en-passant field on the rule-book side
+example (K : Keys) : abs (okp.makeMove K (encodeMove ⟨12, 28, none⟩)).1 = Rules.apply (abs okp) ⟨12, 28, none⟩ :=
+  make_refines_rules_legal K okp_valid _ (by decide +kernel)
+example (K : Keys) : abs (okp.makeMove K e2e4).1 = Rules.apply (abs okp) (decodeMove e2e4) :=
+  make_refines_rules K okp_valid (okp_playable K)
+example : (Rules.apply (abs okp) (decodeMove e2e4)).ep = some 20 := by
+  rw [EpTarget.apply_ep, okp_caps]; decide +kernel
+example : (Rules.apply (abs d2a) (decodeMove e2e4)).ep = none := by
+  rw [EpTarget.apply_ep, d2a_caps]; rfl
+
+-- a game: e2e4 (target e3 recorded) followed by the en-passant capture d4xe3, for every key table;
+-- and the same game through `position fen … moves e2e4 d4e3`
+example (K : Keys) : PlayableRun K okp [e2e4, dxe3] := okp_run K
+example (K : Keys) : abs (run K okp [e2e4, dxe3]) = runRules (abs okp) [e2e4, dxe3] :=
+  run_refines_rules K okp _ (okp_run K)
+example : [e2e4, dxe3].map Move.toUCI = ["e2e4", "d4e3"] := by decide
+example (K : Keys) (cur : Board) :
+    abs (UciPosition.handlePositionS K cur
+      ("fen" :: (Fen.printFields okp ++ "moves" :: [e2e4, dxe3].map Move.toUCI))) =
+      runRules (abs okp) [e2e4, dxe3] :=
+  (uci_moves_refine_partial K cur okp _ okp_valid okp_roundtrip (okp_run K)).2
+example : Fen.printFields okp = ["4k3/8/8/8/3p4/8/4P3/4K3", "w", "-", "-", "0", "1"] := by decide +kernel
 
 end ChessVerif.Props.C02
